@@ -1,7 +1,7 @@
 // ---------------------------------------------------------------------------
 // shim/callgraph_build.rs -- TRUSTED.  What the extracted `get_program_callgraph` (analysis/callgraph.rs,
 // property C24 "for every program") may assume about petgraph 0.6 (`DiGraph::{new, add_node, add_edge}`), about
-// derive-generated code of `Tid` and about the opaque `Jmp`.  Extends the ghost views of shim/callgraph.rs
+// derive-generated code of `Tid` (`Jmp` is the real, extracted enum).  Extends the ghost views of shim/callgraph.rs
 // (DiGraph = node_count_spec / node_weight / edge_seq / edge_weight); nothing in that file is changed.
 // `std::collections::HashMap` and `std::collections::BTreeMap` are NOT shimmed: the unit uses vstd's specifications
 // (HashMap::{new, insert, get} under `obeys_key_model::<Tid>()`, BTreeMap::iter with its ghost sequence).
@@ -91,17 +91,12 @@ impl Ord for Tid {
     fn cmp(&self, other: &Tid) -> core::cmp::Ordering { unimplemented!() }
 }
 
-// ---- the opaque `Jmp` (shim/callgraph.rs), seen through the ONE test the builder performs on it ---------------------
+// ---- the one test the builder performs on a jump: is it a direct call? (Jmp is the real, extracted enum) ------------
 
-/// `Some(target)` iff the jump is `Jmp::Call { target, return_ }` (a direct call), `None` for the six other variants
-/// (Branch, BranchInd, CBranch, CallInd, Return, CallOther).
-pub uninterp spec fn cgb_call_target(j: Jmp) -> Option<Tid>;
-
-/// R9 target for `if let Jmp::Call { target, .. } = SCRUTINEE {`  ->  `if let Some(target) = verif_jmp_call_target(SCRUTINEE) {`.
-/// `Jmp` is opaque in unit callgraph (shim/callgraph.rs, shared), so the pattern test cannot be kept as text.
-#[verifier::external_body]
-pub fn verif_jmp_call_target(j: &Jmp) -> (r: Option<&Tid>)
-    ensures
-        r is Some <==> cgb_call_target(*j) is Some,
-        r is Some ==> *r->Some_0 == cgb_call_target(*j)->Some_0,
-{ unimplemented!() }
+/// `Some(target)` iff the jump is `Jmp::Call { target, return_ }` (a direct call), `None` for the other variants.
+pub open spec fn cgb_call_target(j: Jmp) -> Option<Tid> {
+    match j {
+        Jmp::Call { target, return_ } => Some(target),
+        _ => None,
+    }
+}
